@@ -86,6 +86,11 @@ def crafted():
         c.append(("stringize-num-%d" % n, b"#define S(x) #x\nchar s[] = S(x " + b"7" * n + b" y);\n"))
         c.append(("stringize-str-%d" % n, b'#define S(x) #x\nchar s[] = S("' + b"q" * n + b'" 1);\n'))
         c.append(("macro-body-%d" % n, b"#define M " + b"a" * n + b"\nint M;\n"))
+    # the same string literal used again after the statement that contained it has been lowered and deleted
+    # (string pool keys must not point into freed expression nodes); several lengths = several allocator size classes
+    body = b"".join(b'\tputs("%s"); puts("k%d"); puts("%s");\n' % (b"s" * n, n, b"s" * n) for n in (1, 7, 15, 23, 24, 39, 40, 100, 300, 1025))
+    c.append(("dup-string-body", b"int puts(const char *);\nvoid f(void) {\n" + body + b"}\nvoid g(void) {\n" + body + b"}\n"))
+    c.append(("dup-wstring-body", b'void use(const void *);\nvoid f(void) { use(L"abc"); use(u"abc"); use(L"abc"); use(U"abc"); use(u"abc"); use("abc"); use("abc"); }\n'))
     c.append(("empty", b""))
     c.append(("nul", b"\x00"))
     c.append(("only-hash", b"#"))
@@ -94,6 +99,15 @@ def crafted():
     c.append(("attr-eof", b"[[foo("))
     c.append(("dup-label", b"void f(void){a: a: ;}"))
     c.append(("div-zero", b"int x = 1/0; long y = (-9223372036854775807L-1)/-1; int z = 1%0;"))
+    # every host-undefined constant division, one per unit and per folding context (a trap in one hides the others)
+    for k, e in enumerate([b"1/0", b"1%0", b"(-9223372036854775807L-1)/-1", b"(-9223372036854775807L-1)%-1", b"(-9223372036854775807LL-1)%-1LL",
+                           b"(-2147483647-1)/-1", b"(-2147483647-1)%-1", b"1u/0u", b"1ul%0ul", b"0/0", b"(long)(-9223372036854775807L-1)%(char)-1"]):
+        c.append(("constdiv-%d-init" % k, b"long v = " + e + b";\n"))
+        c.append(("constdiv-%d-enum" % k, b"enum { E = " + e + b" };\n"))
+        c.append(("constdiv-%d-case" % k, b"int f(int x){ switch (x) { case " + e + b": return 1; } return 0; }\n"))
+        c.append(("constdiv-%d-bound" % k, b"int a[(" + e + b") + 2];\n"))
+        c.append(("constdiv-%d-assert" % k, b"_Static_assert((" + e + b") == 0, \"\");\n"))
+        c.append(("constdiv-%d-cond" % k, b"int f(void){ return (" + e + b") ? 1 : 2; }\n"))
     c.append(("nan-to-int", b"long x = (long)(0.0/0.0);"))
     c.append(("surrogate", b'char s[] = "\xed\xa8\x80";'))
     c.append(("nul-in-string", b'char s[] = "a\x00bcdefghijklmnopqrstuvwxyz";'))
